@@ -262,6 +262,10 @@ func BoundaryCoords() []int64 {
 		v := int64(1) << p
 		out = append(out, v, v-1, v+1, -v, -v-1, -v+1)
 	}
+	// round distances: powers of ten (in tenths of a millimetre) and their neighbours
+	for v := int64(10); v < 1<<37; v *= 10 {
+		out = append(out, v, v-1, v+1, -v, -v-1, -v+1)
+	}
 	return out
 }
 
